@@ -1,5 +1,5 @@
-(* C06 -- edits change exactly the targeted lines.  text_effect (Model/Session.v) is the text effect of each editing operation on a committed state, expressed with the plain list operations insert_at / remove_idx / set_nth / insert_flagged; the theorems are their frame properties for every list and target: exactly one line is added (removing it gives the old list back), delete keeps exactly the lines that are neither the target nor its descendants, set_nth changes one line, regex insertion adds one copy per match.  append_to_family: the observed index must satisfy atf_ok (PARTIAL: checked per case, see design/C06.md). *)
-From Coq Require Import List Arith Bool NArith ZArith. Require Import CCP.Lib.Res CCP.Lib.PyStr CCP.Model.Links CCP.Model.Parse CCP.Model.Family CCP.Model.Session CCP.Proofs.ParseProofs CCP.Proofs.SessionProofs. Import ListNotations.
+(* C06 -- edits change exactly the targeted lines.  text_effect (Model/Session.v) is the text effect of each editing operation on a committed state, expressed with the plain list operations insert_at / remove_idx / set_nth / insert_flagged; the theorems are their frame properties for every list and target: exactly one line is added (removing it gives the old list back), delete keeps exactly the lines that are neither the target nor its descendants, set_nth changes one line, regex insertion adds one copy per match.  insertion_preserves_parents: an inserted line leaves every existing parent link alone when (A) every later line it could capture is already shielded by a configuration line after the insertion point and (B) the comment exception of the line directly below does not flip -- F36 violates (A), F35 violates (B).  append_to_family: the observed index must satisfy atf_ok (PARTIAL: checked per case, see DESIGN.md 9.2). *)
+From Coq Require Import List Arith Bool NArith ZArith. Require Import CCP.Lib.Res CCP.Lib.PyStr CCP.Model.Links CCP.Model.Parse CCP.Model.Family CCP.Model.Session CCP.Proofs.ParseProofs CCP.Proofs.SessionProofs CCP.Proofs.InsertProofs. Import ListNotations.
 
 Theorem C06_insert_at_length :
   forall (A : Type) k (x : A) l, length (insert_at k x l) = S (length l).
@@ -95,3 +95,13 @@ Theorem C06_delete_removes_family :
   forall o ls i j x, i < length ls -> forall ls', text_effect o ls (ODelete i) = Ok ls' -> (In (j, x) (keep_idx (i :: all_children (tree_parents o ls) i) 0 ls) <-> nth_error ls j = Some x /\ j <> i /\ ~ ancestor (tree_parents o ls) i j).
 Proof. exact delete_removes_family. Qed.
 Print Assumptions C06_delete_removes_family.
+
+Theorem C06_insertion_preserves_parents :
+  forall pre s suf, shielded s [] suf = true -> first_ok s (rev pre) suf = true -> spec_parents (pre ++ s :: suf) = spec_parents pre ++ [spec_parent (rev pre) s] ++ map (shift (length pre)) (spec_from (rev pre) suf).
+Proof. exact insertion_preserves_parents. Qed.
+Print Assumptions C06_insertion_preserves_parents.
+
+Theorem C06_parents_before_insertion :
+  forall pre suf, spec_parents (pre ++ suf) = spec_parents pre ++ spec_from (rev pre) suf.
+Proof. exact parents_before_insertion. Qed.
+Print Assumptions C06_parents_before_insertion.
